@@ -496,7 +496,24 @@ def run():
         print("VIOLATION property=%s replay=%s" % (prop, rp))
         log("  ", json.dumps(payload, default=str)[:600])
         reported += 1
+    # E1 companions (Kani): normalize_integer_bounds on symbolic f64 bounds, keyword selection, lcm on small coefficients
+    from . import parser_props as pp
+    from .e1check import E1Outcome, run_parser_groups, summarize
+    e1o = E1Outcome()
+    ns = pp.specs("numeric", "c08")
+    if tr == "quick":
+        ns = [x for x in ns if "lcm_small" not in x["name"]]
+    run_parser_groups(prop, "c08", ["numeric"], ns, e1o, harness_timeout_s=900)
+    for v in e1o.violations:
+        if v.get("known"):
+            continue
+        if v.get("replay"):
+            print("VIOLATION property=%s replay=%s" % (prop, v["replay"]))
+            reported += 1
+    inconclusive += e1o.inconclusive
+    e1s = summarize(e1o)
     cov = dict(
+        e1_numeric_kernels=dict(harnesses=e1s["per_harness"], covers="%d/%d" % (e1s["covers_satisfied"], e1s["covers_total"]), solver_s=e1s["solver_s"]),
         programs=stats["compiled"] + stats["rejected"],
         disagreements_checked=len(candidates),
         samples=samples or [dict(note="no tuple processed")],
